@@ -52,7 +52,9 @@ impl World for SeqVsPar {
         let mut g = rng::stream(run_seed, "workload");
         // C08 compares the shipped templates; the step monitors of C05/C06 also see the harness
         // assemblies (archives, operator variants, prepared mixed populations)
-        let kind = if self.prop == "C08" || self.prop == "C16" { *g.pick(&SHIPPED) } else { *g.pick(&crate::checks::tworld::all_kinds()) };
+        let kind = if self.prop == "C08" && g.chance(0.03) {
+            Kind::BigInit
+        } else if self.prop == "C08" || self.prop == "C16" { *g.pick(&SHIPPED) } else { *g.pick(&crate::checks::tworld::all_kinds()) };
         let opts = GenOpts { penalty: g.chance(0.3), max_iters: tier.pick(6, 15), evaluations_term: self.prop != "C16", log: true };
         let case = gen_case(&mut g, kind, &opts);
         let mut sg = rng::stream(run_seed, "schedule");
